@@ -23,12 +23,14 @@ where
     match prop {
         "C01" => {
             gen_sig::c01::<CS>(h);
+            gen_sig::c02_large_octets::<CS>(h);
             gen_sig::interleave_dispatch(h, "C01");
         }
         "C02" => {
             gen_sig::c02::<CS>(h);
             gen_sig::c02_sizes::<CS>(h);
             gen_sig::c02_repeats::<CS>(h);
+            gen_sig::c02_large_octets::<CS>(h);
             gen_sig::interleave_dispatch(h, "C02");
             use zkryptium::bbsplus::ciphersuites::{Bls12381Sha256, Bls12381Shake256};
             if h.suite == "sha" {
@@ -135,7 +137,16 @@ where
         4 => Some(h.rng.bytes(256)),
         _ => Some(h.rng.bytes(65535)),
     };
-    keygen::<CS>(h, &ikm, info.as_deref(), None).ok().expect("keygen of a valid class failed")
+    match keygen::<CS>(h, &ikm, info.as_deref(), None).ok() {
+        Some(k) => k,
+        None => {
+            // a failure here is a finding of its own (every class above is valid input); carry on with the plainest key
+            let id = h.last();
+            h.expect(false, "keygen.valid_input", &format!("key generation failed for valid input (key material {} octets, key_info {:?} octets)", ikm.len(), info.as_ref().map(|x| x.len())), &[id]);
+            let ikm = h.rng.bytes(32);
+            keygen::<CS>(h, &ikm, None, None).ok().expect("keygen with 32 octets of key material and no key_info failed")
+        }
+    }
 }
 
 pub fn rand_keypair<CS: BbsCiphersuite>(h: &mut H) -> (BBSplusSecretKey, BBSplusPublicKey)
